@@ -42,6 +42,22 @@ class C02(Prop):
                 cur = X.ref_set(cur, path, v)
             if ops:
                 out.append({"stream": "ops", "tag": "hist:%d" % len(ops), "input": {"tree": t, "mode": mode, "ops": ops, "paths": paths}})
+        # a dictionary that also holds a literal key spelled like the path of an existing nested node: the assignment
+        # replaces the nested node (what lookup of that string addresses), never the literal entry
+        for _ in range(60 if tier == "quick" else 1500):
+            t = X.gen_tree(rng, 2, root="dict")
+            lit, nested_path, nested = rng.choice([("limits/depth", ["limits", "depth"], {"limits": {"depth": 2, "z": 3}}),
+                                                   ("item[0]", ["item", 0], {"item": [5, 6]}),
+                                                   ("a/b/c", ["a", "b", "c"], {"a": {"b": {"c": "x"}}}),
+                                                   ("m[1][0]", ["m", 1, 0], {"m": [[1], [2, 3]]})])
+            t = {k: v for k, v in t.items() if k not in nested}
+            t[lit] = rng.choice([1, "lit", None])
+            t.update(copy.deepcopy(nested))
+            if rng.random() < 0.5:
+                t = dict(reversed(list(t.items())))
+            v = gen_value(rng)
+            out.append({"stream": "ops", "tag": "literal-path-key",
+                        "input": {"tree": t, "mode": rng.choice(["wrap", "json"]), "ops": [["set", lit, v]], "paths": [nested_path]}})
         self._exh = None
         if tier == "thorough":
             n_trees = n_cases = 0
